@@ -20,10 +20,12 @@ import (
 	"encoding/json"
 	"fmt"
 	"io"
+	"os"
 	"sort"
 	"strconv"
 	"strings"
 	"sync"
+	"syscall"
 	"time"
 
 	"github.com/cloudwego/eino/callbacks"
@@ -416,4 +418,15 @@ func coqNeeds(hs []HSpec) string {
 
 var timingName = []string{"TStart", "TEnd", "TError", "TStartStream", "TEndStream"}
 
-func main() { lib.Main(engine{}) }
+func main() {
+	// With -race the runtime exits with status 66 when it has reported a race, which the
+	// check driver would take for a crashed harness. The reports themselves (GORACE
+	// log_path) are what the driver turns into a violation, so run with exitcode=0.
+	if g := os.Getenv("GORACE"); g != "" && !strings.Contains(g, "exitcode=") {
+		os.Setenv("GORACE", g+" exitcode=0")
+		if exe, err := os.Executable(); err == nil {
+			_ = syscall.Exec(exe, os.Args, os.Environ())
+		}
+	}
+	lib.Main(engine{})
+}
